@@ -34,6 +34,9 @@ def same_signature(sig, pattern, level, is_regex):
     return sig.pattern == pattern and sig.level == level and sig.is_regex == is_regex
 
 
+# every ThreatSignature that exists was built by its constructor, which compiles a regex pattern or raises (class invariant, assumed for
+# pre-state objects; __post_init__ is the only place that sets _compiled)
+invariant("ThreatSignature", "regex-patterns-compile", "implies(self.is_regex, compiles(self.pattern))")
 invariant("Membrane", "rate-window-bounded", "self.rate_limit is None or len(self._request_times) <= max(self.rate_limit, 0)")
 
 SIG_LOOP = "for sig in self.signatures"
